@@ -66,6 +66,7 @@ type scen struct {
 	lateAdd   bool   // a thread calls Add once the run has started
 	parent    bool   // a thread cancels the parent context
 	run2      bool   // a thread calls Run concurrently with the main thread's Run
+	pb        bool   // explored with preemption bounding (only part of the name)
 }
 
 func (s scen) name() string {
@@ -91,6 +92,9 @@ func (s scen) name() string {
 	}
 	if s.run2 {
 		n += " Run||Run"
+	}
+	if s.pb {
+		n += " (preemption-bounded)"
 	}
 	return n
 }
@@ -494,10 +498,7 @@ func mkExec(s scen) *mc.Exec {
 			}
 		}
 		// ---- must Run return? ----
-		closeCalled := false
-		for range closes {
-			closeCalled = true
-		}
+		closeCalled := len(closes) > 0
 		triggered := len(runners) == 0 || anyReturned || parentAt > 0 || (s.closerMgr && len(runners) > 0 && closeCalled)
 		if !ran.returned {
 			if triggered {
@@ -753,6 +754,20 @@ func scenarios() []hx.Scenario {
 		if s.grace == 'x' != strings.Contains(s.closers, "f") {
 			return
 		}
+		if delay {
+			// many goroutines: 3 deviations must complete for the smaller
+			// configurations, 2 for the larger; deeper while the budget lasts
+			w := len(s.runners) + len(s.closers)
+			for _, b := range []bool{s.parent, s.close == '1' || s.close == '2', s.close == '2', s.addCloser != '-', s.lateAdd, s.run2, strings.Contains(s.closers, "p"), s.grace != '-'} {
+				if b {
+					w++
+				}
+			}
+			minBound, bound = 3, 4
+			if w > 4 {
+				minBound, bound = 2, 3
+			}
+		}
 		n := s.name()
 		if seen[n] {
 			return
@@ -810,7 +825,11 @@ func scenarios() []hx.Scenario {
 						sortedT = false
 					}
 				}
-				add(sc, rm, false, 2, 2, r == 3 || (r == 2 && !sortedT))
+				if r == 3 {
+					add(sc, rm, false, 1, 2, true)
+					continue
+				}
+				add(sc, rm, false, 2, 2, r == 2 && !sortedT)
 				if r >= 1 && r <= 2 && sortedT {
 					sc.lateAdd = true
 					add(sc, rm, false, 2, 2, !in(t, "n", "N", "eN"))
@@ -878,13 +897,15 @@ func scenarios() []hx.Scenario {
 			}
 		}
 	}
-	// the same with preemption bounding on the smallest configurations
+	// the same with preemption bounding (choices among forced candidates are
+	// free) on the smallest configurations
 	for _, t := range []string{"", "n", "N"} {
 		for _, cm := range []byte{'-', '1'} {
-			sc := scen{closerMgr: true, runners: t, closers: "", grace: '-', close: cm, addCloser: 'e', addFrom: 'm'}
-			if hasTrigger(sc) {
-				sc.closers = "  " // distinct name: preemption-bounded twin
-				_ = sc
+			for _, par := range []bool{false, true} {
+				sc := scen{closerMgr: true, runners: t, grace: '-', close: cm, parent: par, addCloser: 'e', addFrom: 'm', pb: true}
+				if hasTrigger(sc) && !(cm == '1' && par) {
+					add(sc, rcm, false, 1, 2, t == "N" || par)
+				}
 			}
 		}
 	}
